@@ -267,6 +267,10 @@ func CustAttrs(gob bool) map[string]ugo.Object {
 	}
 	if gob {
 		m["err"] = &ugo.Error{Name: "CustErr", Message: "boom"}
+		// several values that go through the gob fallback in ONE map (each is a self-contained gob
+		// stream: the decoder creates a fresh gob decoder per value), also nested
+		m["err2"] = &ugo.Error{Name: "OtherErr", Message: "second"}
+		m["errs"] = ugo.Map{"a": &ugo.Error{Name: "A", Message: "a"}, "b": &ugo.Error{Name: "B", Message: "b"}, "n": ugo.Int(1)}
 	}
 	return m
 }
@@ -821,6 +825,7 @@ func FixedPrograms() []*EncProgram {
 		mk(`t := import("tiny"); return [t.k, t.f()]`, "tiny"),
 		mk(`c := import("cust"); return [c.nan, c.negz, c.fn(), c.m.fn(1), c.blen([1]), c.sm, c.und]`, "cust"),
 		mk(`c := import("custg"); return [string(c.err), c.nan]`, "custg"),
+		mk(`c := import("custg"); return [string(c.err), string(c.err2), string(c.errs.a), string(c.errs.b), c.errs.n]`, "custg"),
 		mk(`return "` + strings.Repeat("L", 70000) + `"`),
 	}
 }
